@@ -1,8 +1,8 @@
 (* Extraction entry points for C18 (list Z -> list Z each). *)
-From Coq Require Import ZArith List Bool String QArith.
+From Coq Require Import ZArith List Bool String.
 From Coq Require Extraction.
 From Coq Require Import ExtrOcamlBasic ExtrOcamlString.
-From HV Require Import Gen.GenConfig Gen.GenConfigTime Gen.GenConfigMain Spec.ConfigSpec Model.ConfigModel.
+From HV Require Import Gen.GenConfig Gen.GenConfigTime Gen.GenConfigMain Gen.GenConfigNatspec Spec.ConfigSpec Model.ConfigFloatModel Model.ConfigModel.
 Import ListNotations.
 Open Scope Z_scope.
 
@@ -96,6 +96,9 @@ Definition c18_main (a : list Z) : list Z :=
   | [] => []
   end.
 
+(* ---- build.parse_natspec: text -> annotation ---- *)
+Definition c18_natspec (a : list Z) : list Z := parse_natspec a.
+
 (* ---- codecs ---- *)
 Definition enc_opt_list (r : option (list Z)) : list Z :=
   match r with Some l => 1 :: l | None => [0] end.
@@ -107,17 +110,44 @@ Definition c18_errcodes_unparse (a : list Z) : list Z := errcodes_unparse a.
 Definition c18_trace_parse (a : list Z) : list Z := enc_opt_list (trace_parse a).
 Definition c18_trace_unparse (a : list Z) : list Z := trace_unparse a.
 
-Definition c18_timeout_parse (a : list Z) : list Z :=
-  match timeout_parse a with
-  | Some q => let q' := Qred q in [1; Qnum q'; Zpos (Qden q')]
-  | None => [0]
+(* floats travel as [tag; neg; k]: tag 0 = finite (magnitude k in units of 2^-1074), 1 = inf, 2 = nan *)
+Definition enc_f64 (v : f64) : list Z :=
+  match v with
+  | FFin n k => [0; Z.b2z n; k]
+  | FInf n => [1; Z.b2z n; 0]
+  | FNan => [2; 0; 0]
   end.
 
-Definition c18_timeout_unparse (a : list Z) : list Z :=
+Definition dec_f64 (a : list Z) : option f64 :=
   match a with
-  | [n; d] => timeout_unparse (n # Z.to_pos d)
-  | _ => []
+  | [0; n; k] => Some (FFin (negb (n =? 0)) k)
+  | [1; n; _] => Some (FInf (negb (n =? 0)))
+  | [2; _; _] => Some FNan
+  | _ => None
   end.
+
+Definition enc_opt_f64 (r : option f64) : list Z :=
+  match r with Some v => 1 :: enc_f64 v | None => [0] end.
+
+Definition c18_timeout_parse (a : list Z) : list Z := enc_opt_f64 (timeout_parse a).
+
+(* [tag; neg; k] -> [0] (raises) | 1 :: string *)
+Definition c18_timeout_unparse (a : list Z) : list Z :=
+  match dec_f64 a with
+  | Some v => enc_opt_list (timeout_unparse v)
+  | None => []
+  end.
+
+(* a number in halmos.toml: [i] / [tag; neg; k] *)
+Definition c18_timeout_parse_int (a : list Z) : list Z :=
+  match a with [i] => enc_opt_f64 (timeout_parse_int i) | _ => [] end.
+Definition c18_timeout_parse_float (a : list Z) : list Z :=
+  match dec_f64 a with Some v => enc_opt_f64 (timeout_parse_float v) | None => [] end.
+
+(* the float library model on its own: float(s), repr(v) *)
+Definition c18_py_float (a : list Z) : list Z := enc_opt_f64 (py_float a).
+Definition c18_float_repr (a : list Z) : list Z :=
+  match dec_f64 a with Some v => float_repr v | None => [] end.
 
 Definition enc_item (kv : list Z * list Z) : list Z :=
   (Z.of_nat (List.length (fst kv)) :: fst kv ++ Z.of_nat (List.length (snd kv)) :: snd kv)%list.
@@ -144,6 +174,7 @@ Definition c18_int10 (a : list Z) : list Z := match py_int10 a with Some v => [1
 Definition table : list (string * (list Z -> list Z)) :=
   [ ("c18_stack"%string, c18_stack);
     ("c18_main"%string, c18_main);
+    ("c18_natspec"%string, c18_natspec);
     ("c18_csvint_parse"%string, c18_csvint_parse);
     ("c18_csvint_unparse"%string, c18_csvint_unparse);
     ("c18_errcodes_parse"%string, c18_errcodes_parse);
@@ -152,6 +183,10 @@ Definition table : list (string * (list Z -> list Z)) :=
     ("c18_trace_unparse"%string, c18_trace_unparse);
     ("c18_timeout_parse"%string, c18_timeout_parse);
     ("c18_timeout_unparse"%string, c18_timeout_unparse);
+    ("c18_timeout_parse_int"%string, c18_timeout_parse_int);
+    ("c18_timeout_parse_float"%string, c18_timeout_parse_float);
+    ("c18_py_float"%string, c18_py_float);
+    ("c18_float_repr"%string, c18_float_repr);
     ("c18_arrlen_parse"%string, c18_arrlen_parse);
     ("c18_arrlen_unparse"%string, c18_arrlen_unparse);
     ("c18_int0"%string, c18_int0);
